@@ -184,7 +184,7 @@ def auto_structural(ctx, comp):
     return None
 
 
-def _calls_into(ctx, fn, comp, N=None):
+def _calls_into(ctx, fn, comp, N=None, apply_closures=True):
     """calls in fn (incl. closures) whose callee is in the SCC (or a local-trait method linking into it):
     [(call node, callee path, argument terms in fn's parameter space, direct?)]. Calls made on fn's behalf by a transparent
     helper (private, non-recursive, named by no rule) are included, with the helper's parameters substituted (direct = False)."""
@@ -203,6 +203,15 @@ def _calls_into(ctx, fn, comp, N=None):
             elif cal.endswith("ToTokensWithSettings::to_tokens") and any("ToTokensWithSettings>::to_tokens" in m for m in names):
                 hit = cal
             if hit is not None:
+                if apply_closures and q.in_closure_local(fn["body"], n):
+                    # made by a local closure: the applied call sites in the function's term are the recursive calls
+                    short = cshort(hit)
+                    seen = set()
+                    for st in subterms(N.term(fn["body"])):
+                        if st[0] == "call" and st[1] == short and show(st) not in seen:
+                            seen.add(show(st))
+                            out.append((n, hit, list(st[2]), False))
+                    continue
                 out.append((n, hit, [N.term(a) for a in args], True))
             elif N.transparent_fn(cal) is not None and not any(k10._same_fn(cal, m) for m in names):
                 t = N.term(n)
@@ -347,8 +356,8 @@ def _fresh_insert_dominates(N, fn, node, set_t, key_t):
 def guarded(ctx, rid, key, comp, spec):
     fn = ctx.P.body(comp[0])
     N = Norm(fn)
-    calls = [(n, cal) for n, cal, _ats, direct in _calls_into(ctx, fn, comp, N) if direct]
-    indirect = [n for n, cal, _ats, direct in _calls_into(ctx, fn, comp, N) if not direct]
+    calls = [(n, cal) for n, cal, _ats, direct in _calls_into(ctx, fn, comp, N, apply_closures=False) if direct]
+    indirect = [n for n, cal, _ats, direct in _calls_into(ctx, fn, comp, N, apply_closures=False) if not direct]
     if indirect:
         ctx.bad(rid, key, fn["sp"], "a recursive call is made through a helper (%s): the dominance of the visited-set guard cannot be established across the call" % indirect[0]["sp"])
         return
